@@ -75,6 +75,9 @@ func (g *Gen) sortOfG(t GType) string {
 	if t.Set != nil {
 		return fmt.Sprintf("(Array %s Bool)", g.sortOfG(*t.Set))
 	}
+	if t.Math {
+		return "Int"
+	}
 	if t.Unt {
 		return g.intSort(64)
 	}
@@ -249,6 +252,12 @@ func (env *Env) adapt(v Val, to GType) Val {
 		return v
 	}
 	n, _ := new(big.Int).SetString(v.S, 10)
+	if to.Math {
+		if n.Sign() < 0 {
+			return Val{S: fmt.Sprintf("(- %s)", new(big.Int).Neg(n).String()), G: to}
+		}
+		return Val{S: n.String(), G: to}
+	}
 	if to.Unt || to.T == nil {
 		return Val{S: env.g.intLit(n, 64), G: tInt}
 	}
@@ -278,6 +287,12 @@ func (env *Env) lookupIdent(name string) (Val, bool) {
 		if v, ok := env.ex.lookupLocal(env, name); ok {
 			return v, true
 		}
+	}
+	if gv, ok := env.g.P.GhostVars[name]; ok {
+		gt := env.resolveTypeIn(*gv.GType, gv.Pkg)
+		comp := "GV:" + name
+		env.g.compDecl(comp, env.g.sortOfG(gt))
+		return Val{S: env.ex.compGet(env.st, comp), G: gt}, true
 	}
 	// package-level variable
 	if pk := env.pkgOf(); pk != nil {
@@ -532,6 +547,33 @@ func (env *Env) binary(x *EBinary) Val {
 		sfail("operator %s on sets (use union/minus/...)", x.Op)
 	}
 	a, b = env.value(a), env.value(b)
+	if a.G.Math || b.G.Math {
+		tm := GType{Math: true}
+		toM := func(v Val) Val {
+			if v.G.Math {
+				return v
+			}
+			if v.G.Unt {
+				return env.adapt(v, tm)
+			}
+			if _, _, ok := intInfo(v.G.T); !ok {
+				sfail("mathematical integer mixed with non-integer")
+			}
+			return Val{env.ex.toMathInt(v.S, v.G.T), tm}
+		}
+		a, b = toM(a), toM(b)
+		switch x.Op {
+		case "==":
+			return Val{fmt.Sprintf("(= %s %s)", a.S, b.S), tBool}
+		case "!=":
+			return Val{fmt.Sprintf("(not (= %s %s))", a.S, b.S), tBool}
+		case "<", "<=", ">", ">=":
+			return Val{fmt.Sprintf("(%s %s %s)", x.Op, a.S, b.S), tBool}
+		case "+", "-", "*":
+			return Val{fmt.Sprintf("(%s %s %s)", x.Op, a.S, b.S), tm}
+		}
+		sfail("operator %s on mathematical integers", x.Op)
+	}
 	if a.G.Unt && !b.G.Unt {
 		a = env.adapt(a, b.G)
 	} else if b.G.Unt && !a.G.Unt {
@@ -793,6 +835,16 @@ func (env *Env) call(c *ECall) Val {
 			return env.adapt(v, to)
 		}
 		return Val{env.ex.convert(v.G.T, to.T, v.S), to}
+	case "mi": // mathematical integer value of a machine integer
+		need(1)
+		v := env.value(arg(0))
+		if v.G.Unt {
+			return env.adapt(v, GType{Math: true})
+		}
+		if _, _, ok := intInfo(v.G.T); !ok {
+			sfail("mi() needs an integer")
+		}
+		return Val{env.ex.toMathInt(v.S, v.G.T), GType{Math: true}}
 	case "box":
 		need(1)
 		v := env.value(arg(0))
